@@ -6,15 +6,17 @@ import logging
 import numpy as np
 import z3
 
-from symx.core import SBool, SInt, SReal, assume, cur, explore, marray, mfloat, mval, real, reals, rv
+from symx.core import SBool, SInt, SReal, assume, cur, explore, marray, mfloat, mval, real, reals, refute, rv, slice_for
 from symx.runner import Ob
 from symx.stubs import shadow, sym_zeros
 
 ID = "C18"
 TECHNIQUE = ("the real StaticMultipleModel.update / GeneralizedPseudoBayesian1.update / AdaptiveFilter.prune / _compileUpdateStep / _resumeSequentialFiltering / eciStack "
-             "are executed on duck-typed member filters with symbolic estimates, covariances, NIS values, likelihood factors (exp/det results are solver variables, 0 = underflow "
-             "allowed), prior weights and thresholds; numpy's argwhere/delete/sum fork and run on proxies; on each path z3 proves: every divisor is non-zero, weights are "
-             ">= 0 and sum to one, Bayes' rule, moment matching, closure hands back the surviving model")
+             "are executed on duck-typed member filters with symbolic estimates, covariances, NIS values, innovation covariances, prior weights and thresholds; exp is a cut "
+             "function (same argument -> same value e_i >= 0, 0 = underflow allowed), det is computed exactly, sqrt is the engine's contract; numpy's argwhere/delete/sum fork "
+             "and run on proxies; on each path z3 proves: every divisor is non-zero, weights are >= 0 and sum to one, the posterior equals prior times the harness's own Gaussian "
+             "likelihood N(innovation_i; 0, S_i) = exp(-nis_i/2)/sqrt((2 pi)^m det S_i) of each model's own innovation covariance, renormalised (the oracle is built before and "
+             "independently of the code), moment matching, closure hands back the surviving model")
 FLOAT_SEMANTICS = "Real-ideal; a non-zero divisor is a proof obligation (0/0 = NaN in doubles)"
 ENCODED = ["resonaate.estimation.adaptive.smm:StaticMultipleModel.update", "resonaate.estimation.adaptive.smm:StaticMultipleModel._prunedToSingleModel",
            "resonaate.estimation.adaptive.smm:StaticMultipleModel._convergedToSingleModel", "resonaate.estimation.adaptive.gpb1:GeneralizedPseudoBayesian1.update",
@@ -22,15 +24,25 @@ ENCODED = ["resonaate.estimation.adaptive.smm:StaticMultipleModel.update", "reso
            "resonaate.estimation.adaptive.adaptive_filter:AdaptiveFilter._compileUpdateStep", "resonaate.estimation.adaptive.adaptive_filter:AdaptiveFilter._compileForecastStep",
            "resonaate.estimation.adaptive.adaptive_filter:AdaptiveFilter._compilePredictStep", "resonaate.estimation.adaptive.adaptive_filter:AdaptiveFilter._resumeSequentialFiltering",
            "resonaate.estimation.adaptive.mmae_stacking_utils:eciStack"]
-BOUNDS = {"models": "2..3 (quick), 2..4 (thorough)", "state dimension": "2", "measurement dimension": "1", "steps": "one update followed by its pruning/convergence logic",
-          "thresholds": "prune_threshold, prune_percentage symbolic in (0,1)", "likelihoods": "any values >= 0 including exact 0 (underflow)"}
-OUTSIDE = ["model generation (initialize, Lambert targeting)", "5..30 models", "value of exp/det (cut to symbols; their arguments are checked)", "chi-square gate value (uninterpreted)"]
-ASSUMPTIONS = ["exp(-0.5 nis_i) -> e_i >= 0 (0 allowed), det(S_i) -> d_i > 0, chi2.isf uninterpreted", "member filters are duck-typed objects with symbolic fields",
+BOUNDS = {"models": "2..3 (quick), 2..4 (thorough)", "state dimension": "2", "measurement dimension": "1 (innovation covariance 1x1, symbolic and different per model, > 0)",
+          "steps": "one update followed by its pruning/convergence logic", "thresholds": "prune_threshold, prune_percentage symbolic in (0,1)",
+          "likelihoods": "exp(-nis_i/2) any value >= 0 including exact 0 (underflow); det S_i any value > 0",
+          "bayes tolerance": "exact identity proved on every path of the unchanged tree; when the exact identity fails the solver is asked for a posterior off by more than 1e-6 "
+                             "(first among everyday magnitudes: exp factor in [1e-3,1], det S in [1e-2,1e2], prior >= 1e-2; then anywhere)"}
+OUTSIDE = ["model generation (initialize, Lambert targeting)", "5..30 models", "the numeric value of exp (cut to a function symbol: congruence, monotone, exp(0)=1, >= 0, small rational multiples of the "
+           "exponent; its argument is what the code passes)", "chi-square gate value (uninterpreted)", "measurement dimension >= 2 (det is exact there too, but not run)",
+           "total prior-weighted likelihood mass strictly between 5e-16 and 2e-15 (either side of the code's 1e-15 float-resolution threshold for the underflow reset) when the exact "
+           "identity does not hold",
+           "a refactoring that moves rounding-level constants (e.g. a pre-computed double sqrt(2 pi)) makes the exact identity fail by 1e-16; the tolerance query is then the deciding one "
+           "and nlsat may time out on it (reported UNDECIDED, never VIOLATION)"]
+ASSUMPTIONS = ["exp is cut: exp(-0.5 nis_i) = e_i >= 0 (0 allowed = underflow); any other argument gets a fresh value constrained by congruence/monotonicity/exp(0)=1/power law for small "
+               "rational multiples of a known argument", "det is computed exactly by cofactor expansion (no cut); innovation covariances are positive definite (leading minors > 0)",
+               "sqrt is the engine contract r >= 0, r*r = arg (argument >= 0 is a proof obligation)", "chi2.isf uninterpreted", "member filters are duck-typed objects with symbolic fields",
                "prior weights are >= 0 and sum to one (the invariant itself: one inductive step from an arbitrary valid state)"]
-LEVEL_TEXT = ("One inductive step of the multiple-model logic from an arbitrary valid weight vector, for every likelihood vector (zeros included), threshold pair and small "
-              "model count: the probability invariant, Bayes' rule and moment matching are proved by z3 on every path; an unreachable-by-sampling corner (all weights below "
-              "the pruning threshold with a zero first weight) is a satisfiable query.")
-LEVEL_NOTE = "Model count and dimensions bounded; exp/det/chi2 cut to symbols; one update step (induction over steps is by the assumed invariant)."
+LEVEL_TEXT = ("One inductive step of the multiple-model logic from an arbitrary valid weight vector, for every likelihood vector (zeros included), every per-model innovation covariance, "
+              "threshold pair and small model count: the probability invariant, Bayes' rule against an independently built Gaussian likelihood, and moment matching are proved by z3 on "
+              "every path; an unreachable-by-sampling corner (all weights below the pruning threshold with a zero first weight) is a satisfiable query.")
+LEVEL_NOTE = "Model count and dimensions bounded; exp/chi2 cut to symbols; one update step (induction over steps is by the assumed invariant)."
 
 ISF = z3.Function("chi2_isf", z3.RealSort(), z3.RealSort(), z3.RealSort())
 
@@ -58,6 +70,82 @@ class Chi2Stub:
         return SReal(ISF(_tr(a), _tr(d)))
 
 
+def _det(M):
+    """exact determinant (cofactor expansion) of a small square array of proxies: a ring expression, no cut"""
+    M = np.asarray(M, dtype=object)
+    n = M.shape[0]
+    if M.ndim != 2 or M.shape[1] != n:
+        raise ValueError(f"det of a non-square array {M.shape}")
+    if n == 0:
+        return SReal(1)
+    if n == 1:
+        x = M[0, 0]
+        return x if isinstance(x, SReal) else SReal(_tr(x))
+    tot = SReal(0)
+    for j in range(n):
+        minor = np.delete(np.delete(M, 0, axis=0), j, axis=1)
+        term = M[0, j] * _det(minor)
+        tot = tot + term if j % 2 == 0 else tot - term
+    return tot
+
+
+class ExpCut:
+    """exp as a cut function: the same argument gives the same value.
+
+    The harness owns e_i := exp(-nis_i/2) (a solver variable >= 0, exact 0 = underflow).  A call of exp on a
+    syntactically equal argument returns that variable; any other argument gets a fresh value tied to the known
+    ones by the facts every exp satisfies (Ackermann congruence, monotone, exp(0)=1, >= 0) - so the verdict does
+    not depend on how the code spells the exponent."""
+
+    def __init__(self):
+        self.known = []  # (argument term, value SReal)
+        self.calls = []
+
+    def own(self, arg, val):
+        self.known.append((arg.t, val))
+
+    def __call__(self, x):
+        self.calls.append(x)
+        if isinstance(x, np.ndarray):
+            out = np.empty(x.shape, dtype=object)
+            for idx in np.ndindex(*x.shape):
+                out[idx] = self._one(x[idx])
+            return out
+        return self._one(x)
+
+    def _one(self, x):
+        t = _tr(x)
+        ts = z3.simplify(t)
+        if z3.is_rational_value(ts) and ts.numerator_as_long() == 0:
+            return SReal(1)
+        for a, v in self.known:
+            d = z3.simplify(t - a)
+            if z3.is_rational_value(d) and d.numerator_as_long() == 0:
+                return v
+        v = real(f"expv{len(self.known)}")
+        assume(v.t >= 0, z3.Implies(t == 0, v.t == 1), z3.Implies(t < 0, v.t <= 1), z3.Implies(t > 0, v.t >= 1))
+        for a, u in self.known:
+            assume(z3.Implies(t == a, v.t == u.t), z3.Implies(t < a, v.t <= u.t), z3.Implies(t > a, v.t >= u.t))
+            # a small rational multiple of a known argument: exp(p/q * a)^q = exp(a)^p
+            for p, q in self.RATIOS:
+                d = z3.simplify(t * q - a * p)
+                if z3.is_rational_value(d) and d.numerator_as_long() == 0:
+                    vq, up = self._pow(v.t, q), self._pow(u.t, abs(p))
+                    assume(vq == up if p > 0 else z3.Implies(u.t > 0, vq * up == 1))
+                    break
+        self.known.append((t, v))
+        return v
+
+    RATIOS = [(p * s, q) for q in (1, 2, 3, 4) for p in (1, 2, 3, 4) for s in (1, -1) if p != q or s < 0]
+
+    @staticmethod
+    def _pow(x, n):
+        r = x
+        for _ in range(n - 1):
+            r = r * x
+        return r
+
+
 class Model:
     def __init__(self, i, n=2, m=1):
         self.i = i
@@ -66,7 +154,13 @@ class Model:
         self.pred_p, self.est_p = self.Lp.dot(self.Lp.T), self.Le.dot(self.Le.T)
         self.nis = real(f"nis{i}")
         assume(self.nis.t >= 0)
+        # e_i stands for the value of exp(-nis_i/2): any value >= 0, exact 0 = underflow (see ExpCut)
+        self.e = real(f"e{i}")
+        assume(self.e.t >= 0)
+        # innovation covariance: positive definite (leading principal minors > 0); its determinant is computed exactly (_det)
         self.innov_cvr = reals(f"S{i}", m, m)
+        for k in range(1, m + 1):
+            assume(_det(self.innov_cvr[:k, :k]).t > 0)
         self.cross_cvr, self.kalman_gain = reals(f"C{i}", n, m), reals(f"K{i}", n, m)
         self.mean_pred_y, self.innovation, self.true_y = reals(f"my{i}", m), reals(f"inn{i}", m), reals("y", m)
         self.is_angular, self.r_matrix = np.array([False] * m), reals("R", m, m)
@@ -143,21 +237,26 @@ def _run(kind, N):
     w0 = f.model_weights.copy()
     mu0 = f.mode_probabilities.copy()
     models0 = list(f.models)
-    es, ds, calls = [], [], {"exp": [], "det": []}
+    # the oracle's Gaussian likelihood of every model's innovation, built by the harness BEFORE the code runs and
+    # independently of it:  L_i = exp(-nis_i/2) / sqrt((2 pi)^m det S_i)   (exp cut to e_i, det exact, sqrt = engine contract)
+    import math
 
-    def exp_stub(x):
-        e = real(f"e{len(es)}")
-        assume(e.t >= 0)
-        es.append(e)
-        calls["exp"].append(x)
-        return e
+    m_dim = int(f.true_y.shape[0])
+    cut = ExpCut()
+    like, dets = [], []
 
     def det_stub(M):
-        d = real(f"d{len(ds)}")
-        assume(d.t > 0)
-        ds.append(d)
-        calls["det"].append(M)
-        return d
+        dets.append(M)
+        return _det(M)
+
+    for mdl in models0:
+        cut.own(-0.5 * mdl.nis, mdl.e)
+        q = ((2 * math.pi) ** m_dim * _det(mdl.innov_cvr)).sqrt()
+        like.append(mdl.e.t / q.t)
+    es = [mdl.e for mdl in models0]
+    ds = [_det(mdl.innov_cvr) for mdl in models0]
+    calls = {"exp": cut.calls, "det": dets}
+    exp_stub = cut
 
     snaps = []
     real_compile = type(f)._compileUpdateStep
@@ -172,7 +271,7 @@ def _run(kind, N):
     mod = S if kind == "smm" else G
     with shadow(mod, exp=exp_stub, det=det_stub), shadow(AF, zeros=sym_zeros), shadow(ST, chi2=Chi2Stub()), shadow(G, zeros=sym_zeros, ones=_ones):
         f.update(["obs"])
-    return f, w0, mu0, models0, es, ds, calls, snaps
+    return f, w0, mu0, models0, es, ds, calls, snaps, like
 
 
 def _ones(shape, dtype=None):
@@ -181,19 +280,23 @@ def _ones(shape, dtype=None):
     return a
 
 
+def _dispatch(d, kind):
+    fn = {"bayes": replay_bayes, "mode-prob": replay_mode_prob, "moments": replay_moments}.get(d.get("check"), replay_mm)
+    return fn(d, kind)
+
+
 def replay_smm(d):
-    return replay_mm(d, "smm")
+    return _dispatch(d, "smm")
 
 
 def replay_gpb1(d):
-    return replay_mm(d, "gpb1")
+    return _dispatch(d, "gpb1")
 
 
-def replay_mm(d, kind):
-    """Numeric replay of one update (likelihoods, Bayes step, pruning, closure) on the real class."""
+def _numeric_update(d, kind):
+    """One update of the real class on plain floats; returns (filter, weights seen by the first _compileUpdateStep)."""
     import warnings
 
-    from resonaate.estimation.adaptive import adaptive_filter as AF
     from resonaate.estimation.adaptive.gpb1 import GeneralizedPseudoBayesian1
     from resonaate.estimation.adaptive.smm import StaticMultipleModel
     from resonaate.estimation.adaptive.mmae_stacking_utils import eciStack
@@ -205,8 +308,10 @@ def replay_mm(d, kind):
 
     class M:
         def __init__(self, i):
-            self.pred_x = self.est_x = np.array([float(i), 1.0])
-            self.pred_p = self.est_p = np.eye(2)
+            self.est_x = np.array(d["est_x"][i], dtype=float) if d.get("est_x") else np.array([float(i), 1.0])
+            self.est_p = np.array(d["est_p"][i], dtype=float) if d.get("est_p") else np.eye(2)
+            self.pred_x = np.array(d["pred_x"][i], dtype=float) if d.get("pred_x") else self.est_x
+            self.pred_p = np.array(d["pred_p"][i], dtype=float) if d.get("pred_p") else self.est_p
             self.nis = d["nis"][i]
             self.innov_cvr = np.array([[d["det"][i]]])
             self.cross_cvr = self.kalman_gain = np.ones((2, 1))
@@ -240,15 +345,89 @@ def replay_mm(d, kind):
     f.maneuver_metric = None
     f.est_x = f.pred_x = np.zeros(2)
     f.true_y, f.nis = np.array([0.5]), 1.0
+
     class Gate:  # the chi-square gate of the convergence test: open or closed as in the counterexample
         @staticmethod
         def isf(a, dof):
             return 1e300 if d.get("gate_open", True) else -1.0
 
+    first = []
+    real_compile = type(f)._compileUpdateStep
+
+    def snap_compile(obs):
+        snap = {"w": np.asarray(f.model_weights, dtype=float).copy(), "mu": np.asarray(f.mode_probabilities, dtype=float).copy()}
+        first.append(snap)
+        real_compile(f, obs)
+        snap.update(models=list(f.models), est_x=np.asarray(f.est_x, dtype=float).copy(), est_p=np.asarray(f.est_p, dtype=float).copy())
+
+    f._compileUpdateStep = snap_compile
+    f.compile_snaps = first
     with warnings.catch_warnings():
         warnings.simplefilter("ignore")
         with np.errstate(all="ignore"), shadow(ST, chi2=Gate):
             f.update(["obs"])
+    return f, (first[0]["w"] if first else None)
+
+
+BAYES_TOL = 1e-6  # the solver is asked for a posterior off by more than this; the replay accepts a deviation above a tenth of it
+MASS_HI, MASS_LO = 2e-15, 5e-16  # either side of the code's float-resolution threshold (1e-15) for "the whole mass underflowed"
+
+
+def replay_bayes(d, kind):
+    """The posterior model probabilities of the real update (as seen by the first stacking step, before pruning)
+    against an independently computed  prior_i * N(innovation_i; 0, S_i) / sum_j ..."""
+    import math
+
+    f, post = _numeric_update(d, kind)
+    N = len(d["w"])
+    prior = [float(x) for x in (d["w"] if kind == "smm" else d["mu"])]
+    like = [math.exp(-0.5 * d["nis"][i]) / math.sqrt(2 * math.pi * d["det"][i]) for i in range(N)]
+    mass = sum(p * l for p, l in zip(prior, like))
+    detail = {"prior": prior, "gaussian_likelihoods": like, "posterior_of_the_code": None if post is None else post.tolist()}
+    if post is None or len(post) != N or not np.all(np.isfinite(post)):
+        detail["why"] = "no finite posterior of the right length"
+        return True, detail
+    if mass >= MASS_HI:
+        want = [p * l / mass for p, l in zip(prior, like)]
+    elif mass <= MASS_LO:
+        want = [1.0 / N] * N if kind == "smm" else prior
+    else:
+        return False, detail
+    detail["posterior_by_bayes_rule"] = want
+    dev = max(abs(a - b) for a, b in zip(post, want))
+    detail["max_deviation"] = dev
+    return bool(dev > BAYES_TOL / 10), detail
+
+
+def replay_mode_prob(d, kind):
+    """GPB1: the mixed mode probabilities after the update are a distribution."""
+    f, _post = _numeric_update(d, kind)
+    mu = f.compile_snaps[0]["mu"] if f.compile_snaps else np.array([np.nan])
+    bad = (not np.all(np.isfinite(mu))) or np.any(mu < 0) or abs(mu.sum() - 1) > 1e-7
+    return bool(bad), {"mode_probabilities_after_mixing": mu.tolist()}
+
+
+def replay_moments(d, kind):
+    """Every stacking step: est_x / est_p against the probability-weighted mean and the moment-matched mixture covariance."""
+    f, _post = _numeric_update(d, kind)
+    worst, detail = 0.0, {}
+    for k, s in enumerate(f.compile_snaps):
+        w, ms = s["w"], s["models"]
+        if len(w) != len(ms) or not (np.all(np.isfinite(s["est_x"])) and np.all(np.isfinite(s["est_p"]))):
+            return True, {"step": k, "why": "weights/models of different length or non-finite estimate", "weights": w.tolist(), "models": len(ms)}
+        ex = sum(w[i] * ms[i].est_x for i in range(len(ms)))
+        ep = sum(w[i] * (ms[i].est_p + np.outer(ms[i].est_x - ex, ms[i].est_x - ex)) for i in range(len(ms)))
+        scale = 1.0 + max(np.max(np.abs(ep)), np.max(np.abs(ex)))
+        dev = max(np.max(np.abs(s["est_x"] - ex)), np.max(np.abs(s["est_p"] - ep)), np.max(np.abs(s["est_p"] - s["est_p"].T))) / scale
+        if dev > worst:
+            worst, detail = dev, {"step": k, "weights": w.tolist(), "est_x": s["est_x"].tolist(), "weighted_mean": ex.tolist(), "est_p": s["est_p"].tolist(), "mixture_covariance": ep.tolist()}
+    detail["max_relative_deviation"] = float(worst)
+    return bool(worst > 1e-9), detail
+
+
+def replay_mm(d, kind):
+    """Numeric replay of one update (likelihoods, Bayes step, pruning, closure) on the real class."""
+    f, _first = _numeric_update(d, kind)
     w = np.asarray(f.model_weights, dtype=float)
     bad = (not np.all(np.isfinite(w))) or np.any(w < 0) or abs(w.sum() - 1) > 1e-9 or len(f.models) < 1 or len(w) != len(f.models)
     bad = bad or not np.all(np.isfinite(np.asarray(f.est_x, dtype=float)))
@@ -263,23 +442,47 @@ def replay_mm(d, kind):
     return bool(bad), detail
 
 
+def _prove(rep, label, goal, cons, sample=None, **kw):
+    """Sliced query first (only the constraints over the goal's own variables: dropping hypotheses is sound for a proof and
+    takes the thresholds/estimates out of nlsat's way - measured 0.2 s instead of 24 s on the N=4 Bayes identity); a sat/unknown
+    answer of the sliced query means nothing, the full query through Report.prove decides then."""
+    cons = list(cons)
+    sl = slice_for(goal, cons)
+    if len(sl) < len(cons):
+        v = refute(goal, sl, min(kw.get("timeout_ms", 30000), 15000))
+        if v.status == "unsat":
+            rep._item(label, "prove", v, {"sliced": f"{len(sl)} of {len(cons)} constraints"})
+            if sample is not None:
+                rep.sample({"obligation": f"{rep.ob}:{label}", "verdict": "unsat", "what": sample})
+            return True
+    return rep.prove(label, goal, cons, sample=sample, **kw)
+
+
 def o_mm(rep, kind, N, part=0, parts=1):
     """part/parts: the paths are shared out over `parts` obligations (each explores all paths - cheap - and proves its share)."""
     res = explore(lambda: _run(kind, N), max_paths=3000, max_depth=200, recip=False)
     rep.note(f"{kind} N={N}: paths={len(res)} (this obligation proves paths with index % {parts} == {part})")
     n = 0
     closed = 0
+    witnessed = False
     for r in res:
         if r.exc is not None:
             rep.error("exception", f"{r.exc!r}")
             continue
-        f, w0, mu0, models0, es, ds, calls, snaps = r.out
+        f, w0, mu0, models0, es, ds, calls, snaps, like = r.out
         n += 1
         if f._converged_filter is not None:
             closed += 1
+        tag = f"{kind}[N={N}]#{n}"
+        if not witnessed:
+            # vacuity guard (over all paths, not only this obligation's share): a path where Bayes' rule is the claim (mass above the
+            # underflow zone) with two models whose innovation covariances have different determinants and both carry weight
+            pri = w0 if kind == "smm" else mu0
+            mass = z3.Sum([pri[i].t * like[i] for i in range(N)])
+            wit = rep.feasible(f"{tag}-bayes-reach", list(r.constraints) + [mass >= rv(MASS_HI), ds[0].t != ds[1].t, pri[0].t * like[0] > 0, pri[1].t * like[1] > 0], timeout_ms=10000)
+            witnessed = wit is not None and wit is not True
         if (n - 1) % parts != part:
             continue
-        tag = f"{kind}[N={N}]#{n}"
 
         def inputs(m, es=es, ds=ds):
             # likelihood e_i/sqrt(2 pi d_i): realise through nis and a 1x1 innovation covariance
@@ -293,36 +496,73 @@ def o_mm(rep, kind, N, part=0, parts=1):
 
         # (0) every divisor is non-zero / every sqrt argument non-negative when it is reached
         for k, (c, hyp) in enumerate(r.path.domain_obligations()):
-            rep.prove(f"{tag}-finite{k}", c, hyp, inputs=inputs, replay=replay_smm if kind == "smm" else replay_gpb1,
+            _prove(rep, f"{tag}-finite{k}", c, hyp, inputs=inputs, replay=replay_smm if kind == "smm" else replay_gpb1,
                       sample="divisor != 0 (weights stay finite) at the point where the division happens")
         cons = r.constraints
+        big = 30000 if N <= 3 else 120000  # nlsat's time on the N=4 normalisation identities varies between 0.4 s and 30 s from run to run
         # (1) invariant after the whole update (incl. pruning)
         wf = f.model_weights
         goals = [z3.And(*[_tr(x) >= 0 for x in wf]), _approx(z3.Sum([_tr(x) for x in wf]), z3.RealVal(1)), z3.BoolVal(len(f.models) >= 1),
                  z3.BoolVal(len(wf) == len(f.models) == len(f.model_likelihoods) == len(f.mode_probabilities) == f.num_models)]
-        rep.prove(f"{tag}-invariant", z3.And(*goals), cons, inputs=inputs, replay=replay_smm if kind == "smm" else replay_gpb1,
+        _prove(rep, f"{tag}-invariant", z3.And(*goals), cons, timeout_ms=big, inputs=inputs, replay=replay_smm if kind == "smm" else replay_gpb1,
                   sample="after update+prune: weights >= 0, sum to one, >= 1 model, all per-model arrays of equal length")
-        # (2) Bayes' rule at the first compile (before pruning)
+        # (2) Bayes' rule at the first compile (before pruning): posterior = prior * Gaussian likelihood of the model's own
+        #     innovation (its own S_i), renormalised.  `like` is the harness's own formula (built before the code ran).
+        #     The exact identity is tried first: when it is a theorem it is the deciding item.  When it is not, it is only a candidate:
+        #     the deciding query then asks for a posterior off by more than BAYES_TOL so that a counterexample replays robustly in doubles.
         s0 = snaps[0]
-        like = [es[i].t / _sq(r.path, i) for i in range(N)]
+        replay = replay_smm if kind == "smm" else replay_gpb1
+        prior = w0 if kind == "smm" else mu0
+        post = [_tr(x) for x in s0["w"]]
+        ok_len = len(post) == N
+        if not ok_len:
+            post = (post + [z3.RealVal(0)] * N)[:N]
+        tot = z3.Sum([prior[i].t * like[i] for i in range(N)])
+        tiny = z3.And(tot < rv(1e-15), tot > -rv(1e-15))
+        bayes = z3.And(*[post[i] * tot == prior[i].t * like[i] for i in range(N)])
+        bt = rv(BAYES_TOL)
+        bayes_tol = z3.And(*[z3.And(post[i] * tot - prior[i].t * like[i] <= bt * tot, prior[i].t * like[i] - post[i] * tot <= bt * tot) for i in range(N)])
         if kind == "smm":
-            tot = z3.Sum([w0[i].t * like[i] for i in range(N)])
-            bayes = z3.And(*[_tr(s0["w"][i]) * tot == w0[i].t * like[i] for i in range(N)])
-            uniform = z3.And(*[_approx(_tr(s0["w"][i]) * N, z3.RealVal(1)) for i in range(N)])
-            tiny = z3.And(tot < rv(1e-15), tot > -rv(1e-15))
-            rep.prove(f"{tag}-bayes", z3.If(tiny, uniform, bayes), cons, sample="SMM: w' = w*l / sum(w*l), uniform reset when the mass underflows")
+            reset = z3.And(*[_approx(post[i] * N, z3.RealVal(1)) for i in range(N)])
+            what = "SMM: w' = w*N(innov_i;0,S_i) / sum_j w_j*N(innov_j;0,S_j), uniform reset when the mass underflows"
         else:
-            c = z3.Sum([mu0[i].t * like[i] for i in range(N)])
-            tiny = z3.And(c < rv(1e-15), c > -rv(1e-15))
-            bayes = z3.And(*[_tr(s0["w"][i]) * c == mu0[i].t * like[i] for i in range(N)])
-            reset = z3.And(*[_tr(s0["w"][i]) == mu0[i].t for i in range(N)])
-            rep.prove(f"{tag}-bayes", z3.If(tiny, reset, bayes), cons, sample="GPB1: w' = l*mu / c (likelihoods reset to one when c underflows)")
+            reset = z3.And(*[_approx(post[i], prior[i].t) for i in range(N)])
+            what = "GPB1: w' = mu*N(innov_i;0,S_i) / c (likelihoods reset to one when c underflows)"
+        goal = z3.And(z3.BoolVal(ok_len), z3.Implies(tot >= rv(MASS_HI), bayes_tol), z3.Implies(tot <= rv(MASS_LO), reset))
+
+        def tagged(check, inputs=inputs, models0=models0):
+            def fn(m):
+                dct = inputs(m)
+                dct["check"] = check
+                if check == "moments":  # the member filters' own estimates matter only here (elsewhere the replay uses distinct defaults)
+                    for key in ("est_x", "est_p", "pred_x", "pred_p"):
+                        dct[key] = [marray(m, getattr(mdl, key)).tolist() for mdl in models0]
+                return dct
+
+            return fn
+
+        inputs_bayes = tagged("bayes")
+
+        exact = z3.And(z3.BoolVal(ok_len), z3.If(tiny, reset, bayes))
+        lv = refute(exact, slice_for(exact, cons), 15000)
+        if lv.status != "unsat":
+            lv = refute(exact, cons, 30000)
+        if lv.status == "unsat":
+            # the exact identity (with the code's own 1e-15 underflow threshold) is a theorem on this path: it implies `goal`
+            rep._item(f"{tag}-bayes", "prove", lv)
+            rep.sample({"obligation": f"{rep.ob}:{tag}-bayes", "verdict": "unsat", "what": what})
+        else:
+            rep._item(f"{tag}-bayes:exact", "candidate", lv)
+            # the exact identity is not a theorem on this path: look for a counterexample of everyday size first (likelihood
+            # factors, determinants and priors well inside the double range: nothing near the underflow threshold), then anywhere
+            typical = [z3.And(es[i].t >= rv(1e-3), es[i].t <= 1, ds[i].t >= rv(1e-2), ds[i].t <= 100, prior[i].t >= rv(1e-2)) for i in range(N)]
+            # once a violation is on record the remaining paths get a short budget; a timed-out (not refuted) exact identity gets a long one
+            budget = 3000 if rep.violations else (10000 if lv.status == "sat" else 30000)
+            if rep.prove(f"{tag}-bayes-typical", goal, list(cons) + typical, timeout_ms=budget, inputs=inputs_bayes, replay=replay, sample=what + " [everyday magnitudes]") is not False:
+                rep.prove(f"{tag}-bayes", goal, cons, timeout_ms=budget, inputs=inputs_bayes, replay=replay, sample=what)
+        if kind != "smm":
             mu1 = s0["mu"]
-            rep.prove(f"{tag}-mode-prob", z3.And(_approx(z3.Sum([_tr(x) for x in mu1]), z3.RealVal(1)), *[_tr(x) >= 0 for x in mu1]), cons, sample="GPB1: mixed mode probabilities stay a distribution")
-        # likelihood arguments: exp(-0.5*nis_i) and det(innov_cvr_i), in model order
-        ok_args = all(calls["det"][i] is models0[i].innov_cvr for i in range(N)) and len(calls["exp"]) == N
-        rep.prove(f"{tag}-likelihood-args", z3.And(z3.BoolVal(ok_args), *[_tr(calls["exp"][i]) == rv(-0.5) * models0[i].nis.t for i in range(N)]), cons,
-                  sample="likelihood of model i uses exp(-nis_i/2) and det(S_i)")
+            _prove(rep, f"{tag}-mode-prob", z3.And(_approx(z3.Sum([_tr(x) for x in mu1]), z3.RealVal(1)), *[_tr(x) >= 0 for x in mu1]), cons, timeout_ms=big, inputs=tagged("mode-prob"), replay=replay, sample="GPB1: mixed mode probabilities stay a distribution")
         # (3) moment matching at every compile
         for k, s in enumerate(snaps):
             ms, w = s["models"], None
@@ -336,7 +576,7 @@ def o_mm(rep, kind, N, part=0, parts=1):
                     mix = z3.Sum([_tr(w[i]) * (_tr(ms[i].est_p[a, b]) + (ms[i].est_x[a].t - ex[a]) * (ms[i].est_x[b].t - ex[b])) for i in range(len(ms))])
                     g.append(_tr(s["est_p"][a, b]) == mix)
                     g.append(_tr(s["est_p"][a, b]) == _tr(s["est_p"][b, a]))
-            rep.prove(f"{tag}-moments{k}", z3.And(*g), cons, timeout_ms=60000, sample="est_x = sum w_i x_i; est_p = sum w_i (P_i + d d^T), symmetric")
+            _prove(rep, f"{tag}-moments{k}", z3.And(*g), cons, timeout_ms=60000, inputs=tagged("moments"), replay=replay, sample="est_x = sum w_i x_i; est_p = sum w_i (P_i + d d^T), symmetric")
         # (4) closure hands back the surviving model
         if f._converged_filter is not None:
             kw = f._converged_filter.kw
@@ -351,18 +591,14 @@ def o_mm(rep, kind, N, part=0, parts=1):
             from resonaate.estimation.sequential_filter import FilterFlag
 
             g.append(z3.BoolVal(FilterFlag.ADAPTIVE_ESTIMATION_CLOSE in f.flags and FilterFlag.ADAPTIVE_ESTIMATION_START not in f.flags))
-            rep.prove(f"{tag}-closure", z3.And(*g), cons, timeout_ms=60000, inputs=inputs, replay=replay_smm if kind == "smm" else replay_gpb1, sample="on closure the filter handed back carries the surviving model's estimate; flags START->CLOSE")
+            _prove(rep, f"{tag}-closure", z3.And(*g), cons, timeout_ms=60000, inputs=inputs, replay=replay_smm if kind == "smm" else replay_gpb1, sample="on closure the filter handed back carries the surviving model's estimate; flags START->CLOSE")
     if n == 0:
         rep.error("reach", "no path")
+    if not witnessed:
+        rep.error("reach", "no path on which Bayes' rule is checked with different innovation covariances")
     rep.note(f"paths with closure: {closed}")
     if closed == 0:
         rep.error("reach", "closure never reached")
-
-
-def _sq(path, i):
-    """the sqrt variable of the i-th likelihood denominator"""
-    sq = path.apps.get("sqrt", [])
-    return sq[i][0]
 
 
 REPLAYS = {}
@@ -379,3 +615,6 @@ def obligations(tier):
                               + (f" (paths {part} mod {parts})" if parts > 1 else ""), 1500))
                 REPLAYS[name] = replay_smm if kind == "smm" else replay_gpb1
     return obs
+
+
+obligations("thorough")  # fills REPLAYS (python -m symx.runner C18 --replay <file> looks the replay up by obligation name)
